@@ -59,7 +59,8 @@ func (ctx *Toplevel) checkSubdir(mkline *MkLine) {
 	}
 	ctx.previousSubdir = subdir
 
-	if !mkline.IsCommentedVarassign() {
+	if !mkline.IsCommentedVarassign() &&
+		subdir.Clean() != "." && !subdir.ContainsPath("..") {
 		ctx.subdirs = append(ctx.subdirs, ctx.dir.JoinNoClean(subdir))
 	}
 }
